@@ -2,6 +2,7 @@ SPECIFICATION Spec
 CONSTANTS
   MinN = 1
   MaxN = 1
+  Apis <- OnlyLS
   Families <- L_Families
   Modes <- A_Modes
   Jacs <- A_Jacs
@@ -16,4 +17,6 @@ INVARIANT TypeOK
 INVARIANT OptFeasible
 INVARIANT OptIsBoundedMin
 INVARIANT ShearOptIsTarget
+INVARIANT WiderThanStep
+INVARIANT FdPointFeasible
 CHECK_DEADLOCK FALSE
